@@ -7,5 +7,5 @@ mkdir -p work evidence replays coq/gen
 sh tools/mkcoq.sh
 (cd coq && timeout 3000 make -k -j16 2>&1 | grep -v '^COQ' | tail -n 40)
 cp /repo/go.sum harness/go.sum
-(cd harness && go build -tags verif -o /dev/null ./cmd/... 2>&1 | tail -n 20) || true
+(cd harness && go build -tags verif ./... 2>&1 | tail -n 20) || true
 echo setup done
